@@ -174,6 +174,14 @@ func (t *Table) ApplyIndexChanges(attrs []*types.AttributeDefinition, changes []
 		savedIndexes[k] = v
 	}
 
+	for _, attr := range attrs {
+		// the declared type of an attribute that the table or one of its indexes uses as a key cannot change:
+		// the keys of the stored items were built with it
+		if current, ok := t.AttributesDef[*attr.AttributeName]; ok && current != *attr.AttributeType && t.isKeyAttribute(*attr.AttributeName) {
+			return types.NewError("ValidationException", fmt.Sprintf("attribute %q is a key attribute of type %s and cannot be redefined as %s", *attr.AttributeName, current, *attr.AttributeType), nil)
+		}
+	}
+
 	if attrs != nil {
 		t.SetAttributeDefinition(attrs)
 	}
@@ -188,6 +196,21 @@ func (t *Table) ApplyIndexChanges(attrs []*types.AttributeDefinition, changes []
 	}
 
 	return nil
+}
+
+// isKeyAttribute reports whether the attribute is part of the key schema of the table or of one of its indexes
+func (t *Table) isKeyAttribute(name string) bool {
+	if name == t.KeySchema.HashKey || name == t.KeySchema.RangeKey {
+		return true
+	}
+
+	for _, index := range t.Indexes {
+		if name == index.keySchema.HashKey || name == index.keySchema.RangeKey {
+			return true
+		}
+	}
+
+	return false
 }
 
 // AddGlobalIndexes adds global indexes to a table
